@@ -189,6 +189,8 @@ def _lookup_job(job):
     packname = lib.pack_module(plat).GeckoPack(None).name
     bad = []
     n = 0
+    pv = lib.platforms()[plat]
+    shipped_cfg, shipped_log = set(pv["cfg"]), set(pv["log"])
     for cfg, log in pairs:
         n += 1
         lib.reset_library()
@@ -210,6 +212,21 @@ def _lookup_job(job):
         got = (getattr(spa.pack_class, "name", None), getattr(spa.config_class, "version", None), getattr(spa.log_class, "version", None))
         mods = (type(spa.config_class).__module__, type(spa.log_class).__module__)
         exp_mods = (f"geckolib.driver.packs.{plat}-cfg-{cfg}", f"geckolib.driver.packs.{plat}-log-{log}")
+        shipped = (cfg in shipped_cfg) and (log in shipped_log)
+        if not shipped:
+            # a version the spa names but no table module declares: the client must not decode it with another version's
+            # table (module names agree with the version they declare)
+            loaded = [(m, v) for m, v in ((mods[0], got[1]), (mods[1], got[2])) if v is not None]
+            wrong = [(m, v) for (m, v), want in zip(((mods[0], got[1]), (mods[1], got[2])), (cfg, log)) if v is not None and v != want]
+            if wrong or (spa.is_connected):
+                bad.append(("lookup|async|unshipped", f"async client: spa reports {packname} C{cfg:02}/S{log:02} (not both shipped); client "
+                                                      f"loaded {loaded} and is {'connected' if spa.is_connected else 'not connected'}"))
+            with loop.running():
+                for x in tm._tasks:
+                    x.cancel()
+                t.cancel()
+            loop.shutdown()
+            continue
         if got != (packname, cfg, log) or mods != exp_mods:
             bad.append(("lookup|async", f"async client: spa reports {packname} C{cfg:02}/S{log:02}; client loaded {got} from {mods} "
                                         f"(events {[e[0] for e in events if 'CANNOT' in e[0]]})"))
@@ -414,6 +431,11 @@ def run(ctx):
         pairs = [(c, l) for c in v["cfg"] for l in v["log"]]
         if ctx.quick:
             pairs = sorted({(c, l) for c in v["cfg"] for l in (v["log"][0], v["log"][-1])} | {(c, l) for l in v["log"] for c in (v["cfg"][0], v["cfg"][-1])})
+        # versions no module declares: just below, inside the gaps of, and just above the shipped ranges
+        def unshipped(vs):
+            cand = {min(vs) - 1, max(vs) + 1, max(vs) + 7} | {v + 1 for v in vs} | {v - 1 for v in vs}
+            return sorted(c for c in cand if c not in vs and 0 < c < 256)[: (4 if ctx.quick else 40)]
+        pairs += [(c, v["log"][-1]) for c in unshipped(v["cfg"])] + [(v["cfg"][-1], l) for l in unshipped(v["log"])]
         ljobs.append((plat, pairs))
     nl = 0
     for plat, n, bad in core.pmap(ctx, _lookup_job, ljobs, chunksize=1):
